@@ -7,7 +7,7 @@ CONSTANTS
   MaxLatch = 0
   FileSteps = FALSE
   QKinds = {"past"}
-  Fix = {}
+  Fix = {"stale", "zero", "tmp"}
   KKOps = {"U"}
 VIEW view
 INVARIANTS NoQueryFinishedByTick
